@@ -1205,6 +1205,7 @@ func (as *AbacoSource) distributeData(buffersMsg AbacoBuffersType) *dataBlock {
 	segDuration := time.Duration(roundint((1e9 * float64(framesUsed-1)) / as.sampleRate))
 	firstTime := lastSampleTime.Add(-segDuration)
 	block := new(dataBlock)
+	block.nSamp = framesUsed // set once here: the per-channel goroutines below must not all write the same field
 	nchan := len(datacopies)
 	block.segments = make([]DataSegment, nchan)
 
@@ -1228,7 +1229,6 @@ func (as *AbacoSource) distributeData(buffersMsg AbacoBuffersType) *dataBlock {
 				droppedFrames:   buffersMsg.droppedFrames,
 			}
 			block.segments[channelIndex] = seg
-			block.nSamp = len(data)
 		}(channelIndex)
 	}
 	wg.Wait()
